@@ -1,29 +1,17 @@
 """
-Per-property configuration of the check runner.
+Per-property configuration of the check runner: one file vlib/props/<ID>.py per property, each defining
+PROP = { level, claim, sources, rule, explanation, assumptions, exhaustive, ... }.
   sources:   ("harness", family)  -> kharness family run against the real code
              ("programs", module) -> vlib/progs/<module>.py generates, compiles and runs Rust programs
   level:     the evidence level the check claims
 """
-PROPS = {
-    "C02": {
-        "level": "proof",
-        "claim": "Proof: for every list (any element type), every index/index pair below 2^64 and every chunk size, the model of each indexing/splitting function equals the std specification (15 theorems, by case analysis on the overflowing_sub guard + list lemmas, no bound on length). The model is tied to the code by an exhaustive small-scope differential run over all functions, _mut twins, four element types.",
-        "sources": [("harness", "c02")],
-        "exhaustive": True,
-        "rule": "Exhaustive: every slice length 0..=L (L=8 quick, 16 thorough) x every index / index pair from 0..=len+2 plus isize::MAX, isize::MAX+1, usize::MAX-1, usize::MAX x every function (shared and _mut) x element types u8, (), String, [u16;3]; chunk/array sizes N in 0..=5.",
-        "explanation": "Theorems (Props/C02.lean) state model = std spec for every list and every index; the transcript ties the model to the code and the spec to the real std.",
-        "assumptions": ["usize is 64 bits wide", "slice lengths do not exceed isize::MAX (a Rust invariant)"],
-    },
-    "C10": {
-        "level": "proof",
-        "claim": "Proof (partial, with the exact characterisation): for EVERY adapter chain (any depth, any nesting of flat_map/flatten), every closure (arbitrary pure function), every consumer and every finite source, the model of the code the macros emit equals the std chain on the fragment without reversing methods (konst_forward_eq_std) and on the fragment where only map/filter/filter_map/copied/flat_map/flatten precede the reversal (konst_eq_std_commuting, konst_rconsumer_eq_std), plus the two documented exceptions as theorems; konst_eq_std_normalised characterises every remaining chain exactly. The full statement is false of model and code alike for take/skip/zip before a reversal (kernel-checked witnesses) = known finding F7. The model is tied to the real macros by generated programs: all type-correct chains up to depth 2 (3 thorough) plus a seeded sample of deeper ones, each with for_each!, eval! consumers and collect_const!, over all inputs over {0..3} up to length 4.",
-        "sources": [("programs", "c10")],
-        "exhaustive": False,
-        "rule": "Programs: every type-correct chain of depth <= 2 (quick) / 3 (thorough) over 40 adapter instances + seeded sample of depth 3-5; consumers: for_each on every chain, all 14 eval! consumers on chains of depth <= 1 and 3 sampled ones on deeper chains, collect_const! on 4 constant inputs; inputs: all arrays over {0,1,2,3} up to length 4 for depth <= 1, 41 inputs for deeper chains.",
-        "explanation": "impl = value computed by the real konst macros; oracle = identical std chain compiled in the same program (scope m where std has no such chain or a documented exception applies); model = Lean konstEval run by the driver; spec = Lean stdEval/docResult.",
-        "assumptions": ["closures are pure and total; sources are finite (order/number of closure evaluations and infinite/overflowing sources are not modelled)", "per-source-item output list then consumer prefix consumption models the nested loop with the consumer innermost (equivalent for pure closures; validated by the correspondence)"],
-    },
-}
+import os, importlib
+
+PROPS = {}
+_d = os.path.join(os.path.dirname(os.path.abspath(__file__)), "props")
+for _fn in sorted(os.listdir(_d)):
+    if _fn.startswith("C") and _fn.endswith(".py"):
+        PROPS[_fn[:-3]] = importlib.import_module("vlib.props." + _fn[:-3]).PROP
 
 _REASON_PENDING = "not yet built in this session: model, theorems and correspondence for this property are still being written (see DESIGN.md section 6); no check is registered, so nothing is claimed"
 NOT_APPLICABLE = [{"property_id": p, "reason": _REASON_PENDING}
